@@ -186,7 +186,8 @@ Print Assumptions C05_shape_dtype_any_index.
    the theorem holds because _initial_dtype is at least as wide as every part (C05_common_dtype).
    Hypotheses, stated explicitly: shapes are non-negative and have at least one axis (raw_ok) and every part's first
    stage exists (numpy accepts source[stage 1]).  No common-dtype hypothesis any more.
-   No guard for the open findings F10 / F10b / F30b: the indexer raises there, so the implication holds. *)
+   No guard for the open finding F30b: the indexer raises there, so the implication holds.  F10 / F10b are repaired:
+   C05_concat_slice_head_answers / C05_concat_mask_head_answers show that these requests are answered. *)
 Theorem C05_concat : forall raws ts ix c out fulls,
   Forall raw_ok raws ->
   mapM (fun r => oindex_keep (mk_nd (r_shape r) (r_ds r)) (r_keep r)) raws = Ok fulls ->
@@ -374,19 +375,64 @@ Theorem C05_lazy_negative_stage1_int_refuted :
 Proof. exact lazy_negative_stage1_int_refuted. Qed.
 Print Assumptions C05_lazy_negative_stage1_int_refuted.
 
-(* F10 *)
-Theorem C05_concat_empty_head_slice_refuted :
-  run_concat two_parts [ASlice (Some 5) (Some 2) None] = Err
-  /\ spec_concat two_parts [] [ASlice (Some 5) (Some 2) None] <> Err.
-Proof. exact concat_empty_head_slice_refuted. Qed.
-Print Assumptions C05_concat_empty_head_slice_refuted.
+(* ---- F10 / F10b are repaired (katdal 575a063, 9126cf6): the full-strength statements ---- *)
 
-(* F10b *)
-Theorem C05_concat_empty_tail_refuted :
-  run_concat two_parts [full; ASlice (Some 1) (Some 0) None] = Err
+(* C05_concat_slice_head_answers (full strength, replaces the refuted "always answers" of F10 and F10b): for every list
+   of parts (at least one, lengths non-negative), every head slice with a positive step - any start / stop, also a
+   slice that selects nothing and whose start lies in a later part than its stop - and every tail, also one that
+   selects nothing on some axis: the concatenated indexer rejects nothing itself (np.concatenate always receives a
+   chunk, the reshape to the explicit chunk length always succeeds); it answers whenever the parts answer the
+   slices they are handed.  With C05_concat the answer is the one of numpy. *)
+Theorem C05_concat_slice_head_answers : forall ps dt tail S, ps <> [] -> Forall (fun p => 0 <= part_len p) ps ->
+  forall a b cc start stop st,
+  slice_indices (zsum (map part_len ps)) a b cc = Some (start, stop, st) -> 0 < st ->
+  (forall p x y, In p ps -> part_get dt p (ASlice (Some x) (Some y) (Some st) :: tail) <> Err) ->
+  c_head ps dt (zsum (map part_len ps)) S (ASlice a b cc) tail <> Err.
+Proof. exact concat_slice_head_answers. Qed.
+Print Assumptions C05_concat_slice_head_answers.
+
+(* the same for a boolean-mask head (F10b) *)
+Theorem C05_concat_mask_head_answers : forall ps dt tail S, ps <> [] -> Forall (fun p => 0 <= part_len p) ps ->
+  forall m, zlen m = zsum (map part_len ps) ->
+  (forall p mm, In p ps -> part_get dt p (AMask mm :: tail) <> Err) ->
+  c_head ps dt (zsum (map part_len ps)) S (AMask m) tail <> Err.
+Proof. exact concat_mask_head_answers. Qed.
+Print Assumptions C05_concat_mask_head_answers.
+
+(* F10: the witness c[5:2] (and a strided one) now equals numpy ... *)
+Theorem C05_concat_empty_head_slice_fixed :
+  run_concat two_parts [ASlice (Some 5) (Some 2) None] = spec_concat two_parts [] [ASlice (Some 5) (Some 2) None]
+  /\ run_concat two_parts [ASlice (Some 5) (Some 2) None] <> Err
+  /\ run_concat two_parts [ASlice (Some 4) (Some 1) (Some 2)] = spec_concat two_parts [] [ASlice (Some 4) (Some 1) (Some 2)]
+  /\ run_concat two_parts [ASlice (Some 4) (Some 1) (Some 2)] <> Err.
+Proof. exact concat_empty_head_slice_fixed. Qed.
+Print Assumptions C05_concat_empty_head_slice_fixed.
+
+(* ... and what failed before the repair: without `stop = max(start, stop)` no indexer was visited *)
+Theorem C05_concat_empty_head_slice_refuted_before_fix :
+  py_range (concat_first_indexer (find_indexer [0; 3] 5) (find_indexer [0; 3] 2))
+           (concat_end_indexer (find_indexer [0; 3] 5) (find_indexer [0; 3] 2)) 1 = []
+  /\ (forall dt st, concat_chunks dt st [] = Err)
+  /\ spec_concat two_parts [] [ASlice (Some 5) (Some 2) None] <> Err.
+Proof. exact concat_empty_head_slice_refuted_before_fix. Qed.
+Print Assumptions C05_concat_empty_head_slice_refuted_before_fix.
+
+(* F10b: the witnesses (slice and mask head, empty tail) now equal numpy ... *)
+Theorem C05_concat_empty_tail_fixed :
+  run_concat two_parts [full; ASlice (Some 1) (Some 0) None] = spec_concat two_parts [] [full; ASlice (Some 1) (Some 0) None]
+  /\ run_concat two_parts [full; ASlice (Some 1) (Some 0) None] <> Err
+  /\ run_concat two_parts [AMask [true; false; false; true; true]; AList []]
+     = spec_concat two_parts [] [AMask [true; false; false; true; true]; AList []]
+  /\ run_concat two_parts [AMask [true; false; false; true; true]; AList []] <> Err.
+Proof. exact concat_empty_tail_fixed. Qed.
+Print Assumptions C05_concat_empty_tail_fixed.
+
+(* ... and what failed before the repair: .reshape([-1] + shape_tails) cannot infer -1 next to an empty dimension *)
+Theorem C05_concat_empty_tail_refuted_before_fix : forall x,
+  reshape_chunk_before_fix [0] x = Err /\ reshape_chunk [0] x = Ok x
   /\ spec_concat two_parts [] [full; ASlice (Some 1) (Some 0) None] <> Err.
-Proof. exact concat_empty_tail_refuted. Qed.
-Print Assumptions C05_concat_empty_tail_refuted.
+Proof. exact concat_empty_tail_refuted_before_fix. Qed.
+Print Assumptions C05_concat_empty_tail_refuted_before_fix.
 
 (* F30b *)
 Theorem C05_concat_negative_step_refuted :
